@@ -19,7 +19,7 @@ from vlib.core import safe_repr
 PROP = "C13"
 LEVEL = "exploration"
 EVAL_COUNTER = "ops_judged"
-GATES = ["ops_judged", "ops_raised_expected", "ops_ok", "views_compared", "dup_key_rejections", "type_rejections", "negative_index_writes"]
+GATES = ["ops_judged", "ops_raised_expected", "ops_ok", "views_compared", "dup_key_rejections", "type_rejections", "negative_index_writes", "constructions_judged", "construction_rejections_expected"]
 RULE = (
     "operation sequences over KeyedLists built from item universes of k keys x p payloads (self-keyed strings/ints, "
     "tuples and unhashable lists with key function it[0], keyed spec items, int-keyed items, typed KeyedList[T,K]); "
@@ -669,11 +669,65 @@ def make_probes(U):
     return {"keys": list(U.keys) + [U.absent_key], "items": [U.make(s) for s in U.specs[:4]]}
 
 
+def judge_constructions(ctx, U, probes):
+    """
+    Building a KeyedList from a sequence inserts the items one after the other: every sequence of <= 3 universe items
+    (repetitions and duplicate keys included; ill-typed items for typed lists) through the constructor.
+    """
+    from spec_classes.errors import BaseTypeError  # what a typed container's constructor raises on Python >= 3.11
+
+    idx = list(range(len(U.specs)))
+    seqs = [()] + [(i,) for i in idx] + list(itertools.product(idx, repeat=2)) + [c for c in itertools.product(idx, repeat=3) if len({U.kf(U.make(U.specs[i])) for i in c}) < 3]
+    cases = [("specs", c) for c in seqs]
+    for j in range(len(U.bad)):
+        cases += [("bad_first", (j,)), ("bad_last", (j,))]
+    for kind, c in cases:
+        case = [U.name, "construct", kind, list(c)]
+        if kind == "specs":
+            pairs = [(U.make(U.specs[i]), None) for i in c]
+        else:
+            bad, fam = U.bad[c[0]][1](), U.bad[c[0]][2]
+            pairs = [(bad, fam)] if kind == "bad_first" else [(U.make(U.specs[0]), None), (bad, fam)]
+        L, expect = [], None
+        try:
+            for x, fam in pairs:
+                m_check_new(U, L, x, fam)
+                L.append(x)
+        except Raise as r:
+            expect = r.family
+        ctx.count("constructions_judged")
+        items = [x for x, _f in pairs]
+        label = f"{U.name}: {'KeyedList[...]' if U.typed else 'KeyedList'}({safe_repr(items, 80)})"
+        feats = {"universe": U.name, "op": "construct", "arg": kind, "expect": expect or "ok", "n": len(items)}
+        try:
+            l = U.new_container(items)
+            got = None
+        except (Exception, BaseTypeError) as e:  # noqa
+            l, got = None, e
+        if expect is not None:
+            ctx.count("construction_rejections_expected")
+            want = FAMILIES[expect] + ((BaseTypeError,) if "type" in expect else ())
+            if got is None:
+                ctx.violation("raise_expected", f"{label} should raise {expect} but built {safe_repr(list(l), 80)}", features=feats, case=case)
+            elif not isinstance(got, want):
+                ctx.violation("raise_expected", f"{label} raised {type(got).__name__}: {got}; expected one of {[w.__name__ for w in want]}", features=feats, case=case)
+            continue
+        if got is not None:
+            ctx.violation("unexpected_raise", f"{label} raised {type(got).__name__}: {safe_repr(got, 100)}", features=feats, case=case)
+            continue
+        bad = compare_view(U, l, L, probes)
+        if bad:
+            ctx.violation("view_vs_model", f"{label}: {bad[0][0]} = {bad[0][1]}, plain list gives {bad[0][2]} (+{len(bad) - 1} more)", features=feats, case=case)
+        ctx.sig("construct", U.name, kind, len(items))
+
+
 def run(ctx, params):
     U = Universe(params["universe"])
     rng = ctx.rng
     mode = params["mode"]
     probes = make_probes(U)
+    if mode == "exh" and params.get("part", 0) == 0 and params["depth"] == 1 or (mode == "exh" and params.get("part", 0) == 0 and params.get("parts")):
+        judge_constructions(ctx, U, probes)
     if mode == "exh":
         depth = params["depth"]
         starts = start_containers(U, params["max_len"])
